@@ -451,11 +451,11 @@ impl TmplGroup {
             w.paren(|w| {
                 w.function(|w| {
                     w.expr_stmt(|w| {
-                        write!(w, "var G={{}}")?;
+                        write!(w, "var G={{__proto__:null}}")?;
                         Ok(())
                     })?;
                     w.expr_stmt(|w| {
-                        write!(w, "var R={{}}")?;
+                        write!(w, "var R={{__proto__:null}}")?;
                         Ok(())
                     })?;
                     self.write_group_global_content(w)?;
@@ -486,11 +486,11 @@ impl TmplGroup {
             w.paren(|w| {
                 w.function(|w| {
                     w.expr_stmt(|w| {
-                        write!(w, "var G={{}}")?;
+                        write!(w, "var G={{__proto__:null}}")?;
                         Ok(())
                     })?;
                     w.expr_stmt(|w| {
-                        write!(w, "var R={{}}")?;
+                        write!(w, "var R={{__proto__:null}}")?;
                         Ok(())
                     })?;
                     self.write_group_global_content(w)?;
